@@ -6,6 +6,7 @@ import Drivers.Geom
 import Drivers.Search
 import Drivers.Matrix
 import Drivers.Comm
+import Drivers.NodeCell
 
 /-! `refdrv <driver> [args]` : dispatch to a line-protocol driver. One match arm per driver, on one line. -/
 
@@ -17,6 +18,7 @@ def main (args : List String) : IO UInt32 := do
   | "search" :: rest => Drivers.Search.run rest
   | "matrix" :: rest => Drivers.Matrix.run rest
   | "comm" :: rest => Drivers.Comm.run rest
+  | "nodecell" :: rest => Drivers.NodeCell.run rest
   | _ =>
     IO.eprintln s!"refdrv: unknown driver {args}"
     return 2
